@@ -22,7 +22,7 @@ Ltac fmt_tie :=
                src_soyjs_ES5Formatter_Template src_soyjs_ES5Formatter_Call src_soyjs_ES5Formatter_Directive
                src_soyjs_ES5Formatter_Function src_soyjs_ES6Formatter_Template src_soyjs_ES6Formatter_Call
                src_soyjs_ES6Formatter_Directive src_soyjs_ES6Formatter_Function fst snd];
-  cbn [fmt_bytes]; rewrite ?es6_ident_matches_source; rewrite <- ?app_assoc, ?app_nil_r; reflexivity.
+  autounfold with src_helpers; cbn [fmt_bytes]; rewrite ?es6_ident_matches_source; rewrite <- ?app_assoc, ?app_nil_r; reflexivity.
 
 Theorem es5_template_matches_source (name : bstr) :
   (fmt_bytes (fmt_template_name ES5) name, fmt_bytes (fmt_template_text ES5) name) = src_soyjs_ES5Formatter_Template name.
